@@ -29,7 +29,7 @@ def queries(ctx):
     for sc in (1, 2, 3):
         for R in ((3, 4) if ctx.thorough else (3,)):
             qs.append(Q("conc_%s_r%d" % (SC[sc], R), [], defs=["SCEN=%d" % sc, "VP_NDATA=3"], engine="S", patches=PATCH, units=[U, H],
-                        gen=seqir(["hs.c"], threads=["thread0", "thread1"], rounds=R, drain=True), unwind=17, object_bits=10, timeout=3000, slow=True,
+                        gen=seqir(["hs.c"], threads=["thread0", "thread1"], rounds=R, drain=True, ro_fields=["data_repo_s.1", "parsec_execution_stream_s.10"]), unwind=17, object_bits=10, timeout=3000, slow=True,
                         tiers=("quick", "thorough") if R == 3 else ("thorough",),
                         info={"symbolic": ["schedule: every SC interleaving with <= %d scheduling slots per thread, then deterministic drain (both threads must complete)" % R],
                               "enumerated": ["scenario " + SC[sc]], "bounds": {"threads": 2, "rounds": R, "keys": 1}, "functions": FUNCS, "stubs": STUBS}))
